@@ -1,4 +1,5 @@
 import SctpVerif.Proofs.Rack.Tlr
+import SctpVerif.Proofs.Rack.Units
 /-!
 # C10 — the TLR burst budget (`tlr*Locked` in association.go), on `Model/Rack.lean`
 
@@ -86,6 +87,14 @@ theorem C10_tlr_begin_end (s : St) :
     rw [show BitVec.ofNat 32 n = BitVec.ofNat 32 (n - 1 + 1) by rw [this]]
     simp only [BitVec.ofNat_add]
     bv_omega
+
+/-- the burst units never leave the range the code intends — first-RTT burst in [8, 16] quarter-MTUs (2 … 4 MTU),
+later-RTT burst in [5, 8] (1.25 … 2 MTU) — in every state reachable by any operation list; so the budget of a gather
+(`units * MTU`, scaled by 4) is between 1.25 and 4 MTUs during an episode -/
+theorem C10_tlr_units_bounded (cfg : Cfg) (tsn : BitVec 32) (now : Int) (ops : List Op) :
+    let s := run (init cfg tsn now) ops
+    8 ≤ s.tlrBurstFirst ∧ s.tlrBurstFirst ≤ 16 ∧ 5 ≤ s.tlrBurstLater ∧ s.tlrBurstLater ≤ 8 :=
+  UnitsOK.run ops (UnitsOK.init cfg tsn now)
 
 -- non-vacuity: an episode over TSNs 11..13 ends at cumAck = 13, not at 12
 example : (tlrMaybeFinish { (default : St) with tlrActive := true, tlrEndTSN := 13, cumAck := 12 } true).tlrActive = true := by decide
